@@ -108,6 +108,23 @@ def inputs(ctx):
         a, b = rng.choice(docs), rng.choice(docs)
         ins.append({"id": "s%d" % k, "kind": "probe",
                     "text": a[:rng.randrange(len(a) + 1)] + b[rng.randrange(len(b) + 1):]})
+    # long inputs: the deciding marker at the start, in the middle, at the end of documents of 1 k to
+    # 200 k characters (a probe that looks at a window of its input answers for another string)
+    filler_srt = "".join("%d\n00:%02d:%02d,000 --> 00:%02d:%02d,500\nline %d\n\n" % (k + 1, k // 60, k % 60, k // 60, k % 60, k)
+                         for k in range(3000))
+    filler_txt = "lorem ipsum dolor sit amet " * 8000
+    n = 0
+    for size in (1000, 5000, 20000, 200000):
+        for marker in ("WEBVTT", "<sami>", "</tt>", "{1}{2}x", "-->"):
+            for base in (filler_srt[:size], filler_txt[:size], "Scenarist_SCC V1.0\n\n" + filler_txt[:size]):
+                for where in ("start", "middle", "end", "none"):
+                    if where == "none" and marker != "WEBVTT":
+                        continue
+                    mid = len(base) // 2
+                    text = {"start": marker + "\n" + base, "middle": base[:mid] + "\n" + marker + "\n" + base[mid:],
+                            "end": base + "\n" + marker + "\n", "none": base}[where]
+                    ins.append({"id": "L%d" % n, "kind": "probe", "text": text})
+                    n += 1
     # envelopes: characters that code likes to strip, fold or split on, put before, after and
     # around strings the sniffers care about (and alone): a probe that pre-processes its input
     # (strip, lstrip of a byte order mark, case folding, newline normalisation) answers for a
